@@ -443,3 +443,445 @@ Example max_event_length_example :
   (prefix_estimate (st_opts (fold_left handle_isupport [ex_005] state_init)) < 1024)%Z /\
   max_event_length (fold_left handle_isupport [ex_005] state_init) = 906%Z.
 Proof. vm_compute. repeat split; lia. Qed.
+
+(* ------------------------------------------------------------------ *)
+(* C11_fits: every piece of splitMessage is at most w bytes             *)
+(* (one character of up to 4 bytes when w < 4)                          *)
+(* ------------------------------------------------------------------ *)
+
+Definition fits_w (w : Z) (p : str) : Prop := (Zlen p <= w)%Z \/ ((w < 4)%Z /\ (Zlen p <= 4)%Z).
+
+(* once the loop is "guarded" (text on the line, or one character taken) it stays in the room *)
+Lemma cut_len_guarded fuel : forall rest n left has, (has = true \/ 0 < n) ->
+  (Z.of_nat (cut_len fuel rest n left has) <= Z.of_nat n + Z.max left 0)%Z.
+Proof.
+  induction fuel as [|f IH]; intros rest n left has Hg; cbn [cut_len]; [lia|].
+  destruct rest as [|b r]; [lia|]. set (rest := b :: r).
+  destruct (first_rune_width_bounds rest ltac:(subst rest; discriminate)) as [[H1 H4] Hl].
+  destruct ((left <? Z.of_nat (first_rune_width rest))%Z && (Nat.ltb 0 n || has)) eqn:E; [lia|].
+  assert (Hle : (Z.of_nat (first_rune_width rest) <= left)%Z).
+  { apply andb_false_iff in E. destruct E as [E|E]; [lia|].
+    apply orb_false_iff in E. destruct E as [E1 E2]. destruct Hg as [Hg|Hg]; [congruence|].
+    apply Nat.ltb_ge in E1. lia. }
+  specialize (IH (skipn (first_rune_width rest) rest) (first_rune_width rest + n)
+                 (left - Z.of_nat (first_rune_width rest))%Z has).
+  assert (X: 0 < first_rune_width rest + n) by lia. specialize (IH (or_intror X)). lia.
+Qed.
+
+Lemma cut_len_upper word room has : word <> [] ->
+  let n := cut_len (length word) word 0 room has in
+  (Z.of_nat n <= Z.max room 0)%Z \/ (has = false /\ n = first_rune_width word).
+Proof.
+  intros Hne n. subst n. destruct word as [|b r]; [congruence|].
+  destruct (first_rune_width_bounds (b :: r) Hne) as [[H1 H4] Hl].
+  cbn [length cut_len]. set (k := first_rune_width (b :: r)) in *.
+  destruct ((room <? Z.of_nat k)%Z && (Nat.ltb 0 0 || has)) eqn:E; [left; lia|].
+  assert (X : 0 < k + 0) by lia.
+  pose proof (cut_len_guarded (length r) (skipn k (b :: r)) (k + 0) (room - Z.of_nat k)%Z has (or_intror X)) as G.
+  pose proof (cut_len_range (length r) (skipn k (b :: r)) (k + 0) (room - Z.of_nat k)%Z has) as R.
+  destruct (Z.leb (Z.of_nat k) room) eqn:Er.
+  - left. lia.
+  - destruct has.
+    + cbn [Nat.ltb Nat.leb orb] in E. rewrite andb_true_r in E. lia.
+    + right. split; [reflexivity|]. lia.
+Qed.
+
+Definition pfx_ok (w : Z) (pfx : str) : Prop := pfx = [] \/ (Zlen pfx + 4 <= w)%Z.
+
+Record fits_inv (w : Z) (st : lst) : Prop := {
+  fi_out : Forall (fits_w w) (l_out st);
+  fi_has : l_has st = true -> fits_w w (l_cur st);
+  fi_new : l_has st = false -> pfx_ok w (l_cur st)
+}.
+
+Lemma Zlen_app a b : Zlen (a ++ b) = (Zlen a + Zlen b)%Z.
+Proof. unfold Zlen. rewrite app_length. lia. Qed.
+
+Lemma fits_inv_flush w pfx st : pfx_ok w pfx -> fits_inv w st -> l_has st = true -> fits_inv w (flush pfx st).
+Proof.
+  intros Hp [Ho Hh Hn] Hs. constructor; cbn [flush l_out l_cur l_has].
+  - apply Forall_app. split; [exact Ho|]. constructor; [apply Hh; exact Hs|constructor].
+  - discriminate.
+  - intros _. exact Hp.
+Qed.
+
+Lemma place_fits fuel : forall pfx w word st st', pfx_ok w pfx -> fits_inv w st ->
+  place fuel pfx w word st = Ok st' -> fits_inv w st'.
+Proof.
+  induction fuel as [|f IH]; intros pfx w word st st' Hp Hi H.
+  { destruct word; cbn [place] in H; [inversion H; subst; exact Hi|discriminate]. }
+  destruct word as [|b r]; [cbn [place] in H; inversion H; subst; exact Hi|].
+  set (word := b :: r) in *. assert (Hne : word <> []) by (subst word; discriminate).
+  unfold place in H; fold place in H. subst word; cbv beta iota in H; set (word := b :: r) in *.
+  destruct Hi as [Ho Hh Hn].
+  destruct (Zlen word <=? room_of w st)%Z eqn:Efit.
+  - (* the word fits *)
+    inversion H; subst st'. unfold room_of in Efit. constructor; cbn [add l_out l_cur l_has]; [exact Ho| |discriminate].
+    intros _. left. rewrite !Zlen_app. destruct (l_has st); cbn [Zlen length]; unfold Zlen in *; cbn [length]; lia.
+  - destruct (l_has st && ((Zlen pfx + Zlen word <=? w)%Z || (room_of w st <? 4)%Z)) eqn:Eflush.
+    + apply andb_true_iff in Eflush. destruct Eflush as [Es _].
+      eapply IH; [exact Hp| |exact H]. apply fits_inv_flush; [exact Hp|constructor; assumption|exact Es].
+    + set (n := cut_len (length word) word 0 (room_of w st) (l_has st)) in *.
+      unfold slice_to, slice_from in H.
+      destruct (Nat.leb n (length word)) eqn:En; [|discriminate]. cbn [rbind] in H.
+      eapply IH; [exact Hp| |exact H].
+      assert (Hcur : fits_w w (l_cur (add (firstn n word) st))).
+      { cbn [add l_cur]. pose proof (cut_len_upper word (room_of w st) (l_has st) Hne) as U. fold n in U.
+        apply Nat.leb_le in En.
+        assert (Hfl : Zlen (firstn n word) = Z.of_nat n) by (unfold Zlen; rewrite firstn_length; lia).
+        unfold room_of in *. unfold fits_w. rewrite !Zlen_app, Hfl.
+        destruct (l_has st) eqn:Es.
+        - (* text on the line: room >= 4 *)
+          cbn [andb] in Eflush. apply orb_false_iff in Eflush. destruct Eflush as [_ E4].
+          destruct U as [U|[U _]]; [|discriminate]. left. change (Zlen [32%N]) with 1%Z. lia.
+        - specialize (Hn eq_refl). change (Zlen []) with 0%Z.
+          destruct (first_rune_width_bounds word Hne) as [[H1 H4] _].
+          destruct U as [U|[_ U]].
+          + destruct Hn as [Hn|Hn].
+            * rewrite Hn in *. change (Zlen []) with 0%Z in *.
+              destruct (Z.ltb w 4) eqn:E4; [|left; lia].
+              destruct (Z.leb (Z.of_nat n) w) eqn:E5; [left; lia|]. right. lia.
+            * left. lia.
+          + destruct Hn as [Hn|Hn].
+            * rewrite Hn. change (Zlen []) with 0%Z.
+              destruct (Z.ltb w 4) eqn:E4; [right; lia|left; lia].
+            * left. lia. }
+      constructor; cbn [flush add l_out l_cur l_has].
+      * apply Forall_app. split; [exact Ho|]. constructor; [exact Hcur|constructor].
+      * discriminate.
+      * intros _. exact Hp.
+Qed.
+
+Lemma prefix_of_ok codes lastc w : pfx_ok w (prefix_of codes lastc w).
+Proof.
+  unfold prefix_of, pfx_ok. destruct (w <? Zlen (codes ++ lastc) + 4)%Z eqn:E; [left; reflexivity|right; lia].
+Qed.
+
+Lemma step_fits w st word st' : fits_inv w (s_l st) -> step w (Ok st) word = Ok st' -> fits_inv w (s_l st').
+Proof.
+  intros Hi H. unfold step in H; cbn [rbind] in H. destruct word as [|b r].
+  - destruct (l_has (s_l st)) eqn:Es; inversion H; subst; cbn [s_l]; [|exact Hi].
+    apply fits_inv_flush; [apply prefix_of_ok|exact Hi|exact Es].
+  - destruct (track_word (s_codes st) (s_lastc st) (b :: r)) as [codes lastc].
+    destruct (place (2 * length (b :: r) + 2) (prefix_of codes lastc w) w (b :: r) (s_l st)) as [l|] eqn:Ep;
+      cbn [rbind] in H; [|discriminate].
+    inversion H; subst; cbn [s_l]. eapply place_fits; [apply prefix_of_ok|exact Hi|exact Ep].
+Qed.
+
+Lemma fold_step_fits w words : forall st st', fits_inv w (s_l st) ->
+  fold_left (step w) words (Ok st) = Ok st' -> fits_inv w (s_l st').
+Proof.
+  induction words as [|x r IH]; intros st st' Hi H; cbn [fold_left] in H; [inversion H; subst; exact Hi|].
+  destruct (step_ok w st x) as [st1 H1]. rewrite H1 in H.
+  eapply IH; [|exact H]. eapply step_fits; [exact Hi|exact H1].
+Qed.
+
+Lemma fits_w_mono w p q : (length q <= length p) -> fits_w w p -> fits_w w q.
+Proof. unfold fits_w, Zlen. intros H [A|[A B]]; [left|right]; lia. Qed.
+
+Theorem split_message_fits text w ps : split_message text w = Ok ps -> Forall (fits_w w) ps.
+Proof.
+  unfold split_message. intros H.
+  destruct (fold_left (step w) (split_words (to_valid_utf8 qmark text)) (Ok sst_init)) as [st|] eqn:E;
+    cbn [rbind] in H; [|discriminate].
+  inversion H; subst ps. clear H.
+  assert (Hi : fits_inv w (s_l st)).
+  { eapply fold_step_fits; [|exact E]. constructor; cbn; [constructor|discriminate|intros _; left; reflexivity]. }
+  destruct Hi as [Ho Hh _].
+  assert (Hf : Forall (fits_w w) (finish (s_l st))).
+  { unfold finish. destruct (l_has (s_l st)); [|exact Ho].
+    apply Forall_app. split; [exact Ho|]. constructor; [apply Hh; reflexivity|constructor]. }
+  apply Forall_forall. intros p Hp. apply in_map_iff in Hp. destruct Hp as (q & <- & Hq).
+  eapply fits_w_mono; [|exact (proj1 (Forall_forall _ _) Hf q Hq)].
+  apply to_valid_utf8_length. cbn. lia.
+Qed.
+
+(* ------------------------------------------------------------------ *)
+(* DecodeCTCP, inverted                                                *)
+(* ------------------------------------------------------------------ *)
+
+Lemma list_ends (p : str) c0 cl : 2 <= length p ->
+  nth_error p 0 = Some c0 -> nth_error p (length p - 1) = Some cl ->
+  p = c0 :: firstn (length p - 1 - 1) (skipn 1 p) ++ [cl].
+Proof.
+  intros Hl H0 H1. destruct p as [|x r]; [cbn in Hl; lia|]. cbn [nth_error] in H0. inversion H0; subst x.
+  cbn [length skipn] in *. f_equal.
+  replace (S (length r) - 1) with (S (length r - 1)) in H1 by lia. cbn [nth_error] in H1.
+  apply nth_error_split in H1. destruct H1 as (l1 & l2 & E & Hl1).
+  assert (l2 = []).
+  { destruct l2; [reflexivity|]. subst r. rewrite app_length in *. cbn [length] in *. lia. }
+  subst l2. subst r. rewrite app_length. cbn [length].
+  replace (S (length l1 + 1) - 1 - 1) with (length l1) by lia.
+  rewrite firstn_app, firstn_all, Nat.sub_diag. cbn [firstn]. rewrite app_nil_r. reflexivity.
+Qed.
+
+Lemma index_byte_split c s : forall i, index_byte c s = Some i ->
+  s = firstn i s ++ c :: skipn (S i) s /\ ~ In c (firstn i s).
+Proof.
+  induction s as [|x r IH]; intros i; cbn [index_byte]; [discriminate|].
+  destruct (N.eqb x c) eqn:E.
+  - intros H; inversion H; subst. apply N.eqb_eq in E. subst. cbn. split; [reflexivity|tauto].
+  - destruct (index_byte c r) as [j|]; cbn [option_map]; [|discriminate].
+    intros H; inversion H; subst. destruct (IH j eq_refl) as [E1 E2]. cbn [firstn skipn app]. split.
+    + f_equal. exact E1.
+    + intros [Hx|Hx]; [apply N.eqb_neq in E; congruence|exact (E2 Hx)].
+Qed.
+
+Lemma index_byte_none c s : index_byte c s = None -> ~ In c s.
+Proof.
+  induction s as [|x r IH]; cbn [index_byte]; [tauto|].
+  destruct (N.eqb x c) eqn:E; [discriminate|].
+  destruct (index_byte c r); cbn [option_map]; [discriminate|].
+  intros _ [Hx|Hx]; [apply N.eqb_neq in E; congruence|exact (IH eq_refl Hx)].
+Qed.
+
+Lemma decode_ctcp_some e c : decode_ctcp e = Ok (Some c) ->
+  exists p0 body, ev_params e = [p0; [1%N] ++ body ++ [1%N]] /\ body <> [] /\
+    is_msg_cmd (ev_command e) = true /\
+    forallb tag_byte_ok (c_command c) = true /\ c_command c <> [] /\ ~ In 32%N (c_command c) /\
+    ((body = c_command c /\ c_text c = []) \/ body = c_command c ++ [32%N] ++ c_text c).
+Proof.
+  unfold decode_ctcp.
+  destruct (negb (Nat.eqb (length (ev_params e)) 2)) eqn:E2; [discriminate|].
+  apply negb_false_iff, Nat.eqb_eq in E2.
+  destruct (ev_params e) as [|p0 [|p1 [|p2 r]]]; cbn [length] in E2; try lia.
+  unfold nth_param; cbn [nth_error rbind].
+  destruct (Nat.ltb (length p1) 3) eqn:E3; [discriminate|]. apply Nat.ltb_ge in E3.
+  destruct (negb (streqb (ev_command e) PRIVMSG) && negb (streqb (ev_command e) NOTICE)) eqn:Ecmd; [discriminate|].
+  assert (Hmsg : is_msg_cmd (ev_command e) = true).
+  { unfold is_msg_cmd. destruct (streqb (ev_command e) PRIVMSG), (streqb (ev_command e) NOTICE); cbn in *; congruence. }
+  unfold at_.
+  destruct (nth_error p1 0) as [c0|] eqn:N0; [|discriminate].
+  destruct (nth_error p1 (length p1 - 1)) as [cl|] eqn:N1; [|discriminate].
+  cbn [rbind].
+  destruct (negb (c0 =? ctcp_delim)%N || negb (cl =? ctcp_delim)%N) eqn:Ed; [discriminate|].
+  apply orb_false_iff in Ed. destruct Ed as [Ed0 Ed1].
+  apply negb_false_iff, N.eqb_eq in Ed0. apply negb_false_iff, N.eqb_eq in Ed1. unfold ctcp_delim in *. subst c0 cl.
+  unfold slice at 1.
+  replace (Nat.leb 1 (length p1 - 1) && Nat.leb (length p1 - 1) (length p1))%bool with true
+    by (symmetry; apply andb_true_iff; split; apply Nat.leb_le; lia).
+  cbn [rbind].
+  pose proof (list_ends p1 1%N 1%N ltac:(lia) N0 N1) as Hp1.
+  set (text := firstn (length p1 - 1 - 1) (skipn 1 p1)) in *.
+  assert (Htext : text <> []).
+  { intros Ht. rewrite Ht in Hp1. rewrite Hp1 in E3. cbn in E3. lia. }
+  destruct (index_byte event_space text) as [s|] eqn:Ei.
+  - destruct (Nat.eqb s 0) eqn:Es0; [discriminate|]. apply Nat.eqb_neq in Es0.
+    destruct (negb (forallb tag_byte_ok (firstn s text))) eqn:Et; [discriminate|]. apply negb_false_iff in Et.
+    pose proof (index_byte_lt _ _ _ Ei) as Hlt.
+    unfold slice, slice_from.
+    replace (Nat.leb 0 s && Nat.leb s (length text))%bool with true
+      by (symmetry; apply andb_true_iff; split; apply Nat.leb_le; lia).
+    replace (Nat.leb (S s) (length text)) with true by (symmetry; apply Nat.leb_le; lia).
+    cbn [rbind]. intros H; inversion H; subst c; cbn [c_command c_text]. clear H.
+    rewrite Nat.sub_0_r. cbn [skipn].
+    destruct (index_byte_split _ _ _ Ei) as [Esplit Hnin].
+    exists p0, text. repeat split; try assumption.
+    + f_equal. f_equal. exact Hp1.
+    + intros Hn. assert (length (firstn s text) = 0) by (rewrite Hn; reflexivity). rewrite firstn_length in H. lia.
+    + right. exact Esplit.
+  - destruct (forallb tag_byte_ok text) eqn:Et; [|discriminate].
+    intros H; inversion H; subst c; cbn [c_command c_text]. clear H.
+    exists p0, text. repeat split; try assumption.
+    + f_equal. f_equal. exact Hp1.
+    + apply index_byte_none. exact Ei.
+    + left. split; reflexivity.
+Qed.
+
+(* ------------------------------------------------------------------ *)
+(* C11_fits / C11_shape at the event level                             *)
+(* ------------------------------------------------------------------ *)
+
+(* "COMMAND target :" (with the tag overhead), i.e. the line without any text *)
+Definition head_len (e : sevent) : Z :=
+  Z.of_nat (len_nosrc (with_params e (set_last (se_params e) []))).
+
+Definition ctcp_of (e : sevent) : option ctcp_event :=
+  match decode_ctcp (Ctcp.mk_event None (se_command e) (se_params e)) with
+  | Ok d => d
+  | Panic => None
+  end.
+
+(* the CTCP frame \x01 TAG SPACE ... \x01 plus the one byte Event.split keeps in reserve *)
+Definition ctcp_overhead (e : sevent) : Z :=
+  match ctcp_of e with Some c => (Zlen (c_command c) + 4)%Z | None => 0%Z end.
+
+Definition cmd_target_len (e : sevent) : Z := (head_len e + ctcp_overhead e)%Z.
+
+Fixpoint mid_len (ps : list str) : nat :=
+  match ps with [] => 0 | p :: r => 1 + length p + mid_len r end.
+
+Lemma params_len_snoc l v :
+  params_len (l ++ [v]) = mid_len l + 1 + length v + (if needs_colon v then 1 else 0).
+Proof.
+  induction l as [|p r IH]; [cbn; lia|].
+  change ((p :: r) ++ [v]) with (p :: (r ++ [v])).
+  destruct (r ++ [v]) as [|x y] eqn:E; [destruct r; discriminate|].
+  change (params_len (p :: x :: y)) with (1 + length p + params_len (x :: y)).
+  cbn [mid_len]. rewrite IH. lia.
+Qed.
+
+Lemma set_last_snoc ps v : ps <> [] -> set_last ps v = removelast ps ++ [v].
+Proof. destruct ps; [congruence|reflexivity]. Qed.
+
+Lemma len_nosrc_piece e v : se_params e <> [] ->
+  (Z.of_nat (len_nosrc (with_params e (set_last (se_params e) v))) <= head_len e + Zlen v)%Z.
+Proof.
+  intros Hne. unfold head_len, len_nosrc, with_params; cbn [se_tagov se_command se_params].
+  rewrite !set_last_snoc by exact Hne. rewrite !params_len_snoc. cbn [length].
+  change (needs_colon []) with true. unfold Zlen. destruct (needs_colon v); lia.
+Qed.
+
+Definition event_fits (e : sevent) (max : Z) (p : sevent) : Prop :=
+  (Z.of_nat (len_nosrc p) <= max)%Z \/
+  ((max - cmd_target_len e < 4)%Z /\ (Z.of_nat (len_nosrc p) <= cmd_target_len e + 4)%Z).
+
+Lemma last_two {A} (a b d : A) : last [a; b] d = b.
+Proof. reflexivity. Qed.
+
+Theorem event_split_fits e max es : event_split e max = Ok es ->
+  se_params e <> [] -> is_msg_cmd (se_command e) = true -> (cmd_target_len e <= max)%Z ->
+  Forall (event_fits e max) es.
+Proof.
+  intros H Hne Hmsg Hctl. unfold event_split in H.
+  destruct (se_params e) as [|p ps] eqn:Ep; [congruence|]. rewrite <- Ep in *.
+  rewrite Hmsg in H. cbn [negb] in H.
+  destruct (Z.of_nat (len_nosrc e) <? max)%Z eqn:Elen.
+  { inversion H; subst. constructor; [left; lia|constructor]. }
+  unfold cmd_target_len, ctcp_overhead, ctcp_of in *. fold (head_len e) in H.
+  destruct (decode_ctcp (Ctcp.mk_event None (se_command e) (se_params e))) as [d|] eqn:Ed;
+    cbn [rbind] in H; [|discriminate].
+  destruct d as [c|].
+  - destruct (decode_ctcp_some _ _ Ed) as (p0 & body & Hps & Hbody & _). cbn [ev_params] in Hps.
+    assert (Hlast : last (se_params e) [] = 1%N :: body ++ [1%N]) by (rewrite Hps; reflexivity).
+    rewrite Hlast in H. cbv beta iota in H.
+    destruct ((max - (Zlen (c_command c) + 4) <? head_len e)%Z) eqn:Ecmp; [lia|].
+    destruct (split_message (c_text c) (max - (Zlen (c_command c) + 4) - head_len e)) as [pieces|] eqn:Es;
+      cbn [rbind] in H; [|discriminate].
+    inversion H; subst es. clear H.
+    pose proof (split_message_fits _ _ _ Es) as Hf.
+    apply Forall_forall. intros x Hx. apply in_map_iff in Hx. destruct Hx as (q & <- & Hq).
+    pose proof (proj1 (Forall_forall _ _) Hf q Hq) as Hfq.
+    pose proof (len_nosrc_piece e (ctcp_wrap (c_command c) q) Hne) as Hl.
+    unfold ctcp_wrap in Hl. rewrite !Zlen_app in Hl. change (Zlen [1%N]) with 1%Z in Hl. change (Zlen [32%N]) with 1%Z in Hl.
+    unfold event_fits, cmd_target_len, ctcp_overhead, ctcp_of. rewrite Ed.
+    unfold ctcp_wrap. destruct Hfq as [Hfq|[Hw Hfq]]; [left; lia|right; lia].
+  - destruct ((max <? head_len e)%Z) eqn:Ecmp; [lia|].
+    destruct (split_message (last (se_params e) []) (max - head_len e)) as [pieces|] eqn:Es;
+      cbn [rbind] in H; [|discriminate].
+    inversion H; subst es. clear H.
+    pose proof (split_message_fits _ _ _ Es) as Hf.
+    apply Forall_forall. intros x Hx. apply in_map_iff in Hx. destruct Hx as (q & <- & Hq).
+    pose proof (proj1 (Forall_forall _ _) Hf q Hq) as Hfq.
+    pose proof (len_nosrc_piece e q Hne) as Hl.
+    unfold event_fits, cmd_target_len, ctcp_overhead, ctcp_of. rewrite Ed.
+    destruct Hfq as [Hfq|[Hw Hfq]]; [left; lia|right; lia].
+Qed.
+
+(* what reaches the wire is not longer than what LenOpts measured *)
+Lemma params_bytes_length ps : length (params_bytes ps) = params_len ps.
+Proof.
+  induction ps as [|p r IH]; [reflexivity|]. destruct r as [|q r'].
+  - cbn [params_bytes params_len]. rewrite !app_length. cbn [length]. destruct (needs_colon p); cbn [length]; lia.
+  - change (params_bytes (p :: q :: r')) with ([32%N] ++ p ++ params_bytes (q :: r')).
+    change (params_len (p :: q :: r')) with (1 + length p + params_len (q :: r')).
+    rewrite !app_length, IH. cbn [length]. lia.
+Qed.
+
+Lemma source_bytes_length s : length (source_bytes s) = source_len s.
+Proof.
+  destruct s as [[name ident] host]. unfold source_bytes, source_len. rewrite !app_length.
+  destruct ident, host; cbn [length]; lia.
+Qed.
+
+Lemma strip_crlf_length s : length (strip_crlf s) <= length s.
+Proof.
+  unfold strip_crlf. induction s as [|b r IH]; [cbn; lia|]. cbn [filter].
+  match goal with |- context [if ?c then _ else _] => destruct c end; cbn [length]; lia.
+Qed.
+
+Theorem event_bytes_length e : se_tagov e = 0 -> length (event_bytes e) <= len_opts e.
+Proof.
+  intros Ht. unfold event_bytes.
+  eapply Nat.le_trans; [apply strip_crlf_length|].
+  eapply Nat.le_trans; [apply to_valid_utf8_length; cbn; lia|].
+  unfold event_raw, len_opts, len_nosrc. rewrite Ht. rewrite !app_length, params_bytes_length.
+  destruct (se_source e) as [s|]; [|cbn [length]; lia].
+  rewrite !app_length, source_bytes_length. cbn [length]. lia.
+Qed.
+
+(* C11_shape *)
+Definition same_frame (e p : sevent) : Prop :=
+  se_command p = se_command e /\ se_source p = se_source e /\ se_tagov p = se_tagov e /\
+  length (se_params p) = length (se_params e) /\ removelast (se_params p) = removelast (se_params e).
+
+Lemma removelast_snoc {A} (l : list A) v : removelast (l ++ [v]) = l.
+Proof. apply removelast_last. Qed.
+
+Lemma same_frame_piece e v : se_params e <> [] -> same_frame e (with_params e (set_last (se_params e) v)).
+Proof.
+  intros Hne. unfold same_frame, with_params; cbn [se_command se_source se_tagov se_params].
+  rewrite set_last_snoc by exact Hne. rewrite removelast_snoc.
+  repeat split. rewrite app_length. cbn [length].
+  destruct (se_params e) as [|x r]; [congruence|].
+  pose proof (@app_removelast_last _ (x :: r) [] ltac:(discriminate)) as E.
+  rewrite E at 2. rewrite app_length. cbn [length]. reflexivity.
+Qed.
+
+(* Every piece keeps command, source, tags and all parameters but the last; the last
+   parameter is the piece itself, or, when e is a CTCP, the piece in the same CTCP frame.
+   Moreover the payloads are exactly what splitMessage returns for the text. *)
+Theorem event_split_shape e max es : event_split e max = Ok es ->
+  es = [e] \/
+  (se_params e <> [] /\ is_msg_cmd (se_command e) = true /\
+   exists text wrap w pieces,
+     split_message text w = Ok pieces /\
+     es = List.map (fun q => with_params e (set_last (se_params e) (wrap q))) pieces /\
+     Forall (same_frame e) es /\
+     match ctcp_of e with
+     | Some c => text = c_text c /\ wrap = ctcp_wrap (c_command c) /\ w = (max - cmd_target_len e)%Z
+     | None => text = last (se_params e) [] /\ wrap = (fun q => q) /\ w = (max - cmd_target_len e)%Z
+     end).
+Proof.
+  intros H. unfold event_split in H.
+  destruct (se_params e) as [|p ps] eqn:Ep; [left; inversion H; reflexivity|]. rewrite <- Ep in *.
+  assert (Hne : se_params e <> []) by (rewrite Ep; discriminate).
+  destruct (is_msg_cmd (se_command e)) eqn:Hmsg; cbn [negb] in H; [|left; inversion H; reflexivity].
+  destruct (Z.of_nat (len_nosrc e) <? max)%Z; [left; inversion H; reflexivity|].
+  fold (head_len e) in H.
+  unfold cmd_target_len, ctcp_overhead, ctcp_of.
+  destruct (decode_ctcp (Ctcp.mk_event None (se_command e) (se_params e))) as [d|] eqn:Ed;
+    cbn [rbind] in H; [|discriminate].
+  destruct d as [c|].
+  - destruct (last (se_params e) []); [left; inversion H; reflexivity|].
+    destruct ((max - (Zlen (c_command c) + 4) <? head_len e)%Z); [left; inversion H; reflexivity|].
+    destruct (split_message (c_text c) (max - (Zlen (c_command c) + 4) - head_len e)) as [pieces|] eqn:Es;
+      cbn [rbind] in H; [|discriminate].
+    inversion H; subst es. clear H. right. split; [exact Hne|]. split; [reflexivity|].
+    exists (c_text c), (ctcp_wrap (c_command c)), (max - (Zlen (c_command c) + 4) - head_len e)%Z, pieces.
+    split; [exact Es|]. split; [reflexivity|]. split.
+    + apply Forall_forall. intros x Hx. apply in_map_iff in Hx. destruct Hx as (q & <- & _).
+      apply same_frame_piece. exact Hne.
+    + repeat split. lia.
+  - destruct ((max <? head_len e)%Z); [left; inversion H; reflexivity|].
+    destruct (split_message (last (se_params e) []) (max - head_len e)) as [pieces|] eqn:Es;
+      cbn [rbind] in H; [|discriminate].
+    inversion H; subst es. clear H. right. split; [exact Hne|]. split; [reflexivity|].
+    exists (last (se_params e) []), (fun q => q), (max - head_len e)%Z, pieces.
+    split; [exact Es|]. split; [reflexivity|]. split.
+    + apply Forall_forall. intros x Hx. apply in_map_iff in Hx. destruct Hx as (q & <- & _).
+      apply same_frame_piece. exact Hne.
+    + repeat split. lia.
+Qed.
+
+Example event_split_example :
+  let e := message (bs "#c") (bs "aaa bbb ccc") in
+  se_params e <> [] /\ is_msg_cmd (se_command e) = true /\ (cmd_target_len e <= 18)%Z /\
+  event_split e 18 = Ok [message (bs "#c") (bs "aaa"); message (bs "#c") (bs "bbb"); message (bs "#c") (bs "ccc")].
+Proof. vm_compute. repeat split; try discriminate. Qed.
+
+Example event_split_ctcp_example :
+  let e := action (bs "#c") (bs "aaa bbb") in
+  ctcp_of e <> None /\ (cmd_target_len e <= 26)%Z /\
+  event_split e 26 = Ok [action (bs "#c") (bs "aaa"); action (bs "#c") (bs "bbb")].
+Proof. vm_compute. repeat split; discriminate. Qed.
